@@ -37,6 +37,7 @@ def standard_worker(mod, tier, seed):
     def worker(i, n):
         H.boot(serial_pool=getattr(mod, "SERIAL_POOL", True))
         H.fresh_aggregator_locks()
+        H.limit_memory()
         if hasattr(mod, "prepare"):
             mod.prepare(tier)
         if hasattr(mod, "on_worker_start"):
